@@ -6,3 +6,7 @@ import Gomjml.Props.C17
 #print axioms Gomjml.Props.C17.C17_line_lookup
 #print axioms Gomjml.Props.C17.C17_html_unchanged
 #print axioms Gomjml.Props.C17.C17_sites
+#print axioms Gomjml.Props.C17.C17_wrap_moves_no_line
+#print axioms Gomjml.Props.C17.C17_entities_move_no_line
+#print axioms Gomjml.Props.C17.C17_reported_line_is_input_line
+#print axioms Gomjml.Props.C17.C17_prepass_source
